@@ -795,6 +795,34 @@ func famPanic(o *Out, r R, tier string) {
 			}
 		}
 	}
+	// extreme tree shapes: construction, rendering (Config), re-validation, and every probe as an actual request
+	for _, e := range extremeTrees(tier) {
+		e := e
+		var em *cors.Middleware
+		guard("panic/extreme-config", "NewMiddleware/Config/Reconfigure(Config()) on the tree shape "+e.kind, func() {
+			var err error
+			em, err = cors.NewMiddleware(cors.Config{Origins: e.pats})
+			if err != nil {
+				panic("extreme tree shape rejected: " + err.Error())
+			}
+			_ = em.Config()
+			if err := em.Reconfigure(em.Config()); err != nil {
+				panic("Reconfigure(Config()) failed: " + err.Error())
+			}
+			_ = em.Config()
+		})
+		if em == nil {
+			continue
+		}
+		for _, og := range e.probes {
+			q := reqT{method: "GET", hdrs: http.Header{"Origin": {og}}}
+			guard("panic/extreme-request", "ServeHTTP on tree shape "+e.kind+" with "+truncate(str(q.sx())), func() {
+				if out := serveOnce(em, q, http.Header{}); out.panicked {
+					panic("handler panicked")
+				}
+			})
+		}
+	}
 	valid2, _ := cors.NewMiddleware(cors.Config{Origins: []string{"*"}, RequestHeaders: []string{"*"}, Methods: []string{"*"}})
 	// the full product of field shapes (absent, nil, zero values, empty value, good value, two values) around an
 	// otherwise well-formed preflight / actual request, for three configurations and both debug modes
